@@ -75,7 +75,7 @@ def check_end_to_end(ctx, idx):
     and values, and the bootstrap value of the post-rollout state."""
     import jax
     from jax import random as jr
-    from lerax.algorithm import A2C, PPO
+    from lerax.algorithm import A2C, PPO, REINFORCE
     from lerax.wrapper import TimeLimit
     from .common.collect import clip_desc, collect, impl_rows, policy_desc, replay_env, slice_env
     from .common.tabular import enc_state, random_ac_policy, random_tabular
@@ -86,8 +86,14 @@ def check_end_to_end(ctx, idx):
     policy = random_ac_policy(rng, env0)
     E, T = int(rng.choice([1, 2])), int(rng.integers(6, 20))
     gamma, lam = float(rng.choice([0.9, 0.99, 1.0])), float(rng.choice([0.0, 0.8, 0.95, 1.0]))
-    algo = (PPO(num_envs=E, num_steps=T, gamma=gamma, gae_lambda=lam, num_batches=1, num_epochs=1)
-            if idx % 2 == 0 else A2C(num_envs=E, num_steps=T, gamma=gamma, gae_lambda=lam))
+    if idx % 3 == 0:
+        algo = PPO(num_envs=E, num_steps=T, gamma=gamma, gae_lambda=lam, num_batches=1, num_epochs=1)
+    elif idx % 3 == 1:
+        algo = A2C(num_envs=E, num_steps=T, gamma=gamma, gae_lambda=lam)
+    else:       # REINFORCE: Monte-Carlo returns are GAE(lambda = 1), bootstrapped like the others
+        algo = REINFORCE(num_envs=E, num_steps=T, gamma=gamma)
+        lam = float(algo.gae_lambda)
+    ctx.count("end-to-end:" + type(algo).__name__)
     pre, post, buf, _ = collect(algo, env, policy, jr.key(int(rng.integers(0, 2**31))))
     tab, pol = env0.describe(), policy_desc(policy)
     for e in range(E):
@@ -119,7 +125,7 @@ def check_end_to_end(ctx, idx):
 
 def run(ctx):
     rng = ctx.rng
-    for i in range(ctx.budget(4, 16)):
+    for i in range(ctx.budget(6, 18)):
         check_end_to_end(ctx, i)
     # (1) every done pattern for short rollouts
     maxT = ctx.budget(6, 10)
